@@ -193,6 +193,25 @@ def run(chk, replay=None):
         if ci == 40:
             chk.sample({'abstract_file': case['file'][:4], 'cmap': case['cmap'], 'first_lines': open(path).read().splitlines()[:3]})
     chk.traces += okc
+    # files whose cells leave a whole column and a whole row of the lattice empty (two 'islands' of cells): the empty lines are
+    # holes of the region like any other
+    for isl, (cells_, nx_, ny_) in enumerate(((([0, 0], [1, 0], [3, 0], [0, 2], [3, 2]), 4, 3), (([2, 1], [0, 1], [0, 3]), 3, 4),
+                                             (([0, 0], [2, 0]), 3, 1), (([0, 2], [0, 0]), 1, 3))):
+        nm_ = 2
+        cmap_ = [[-1] * nx_ for _ in range(ny_)]
+        rows_ = []
+        for q_, (i_, j_) in enumerate(cells_):
+            cmap_[j_][i_] = q_
+            for k_ in range(1, nm_ + 1):
+                rows_.append({'cell': [i_, j_], 'mbin': k_, 'rate': 1 + q_ * nm_ + k_, 'flag': 1})
+        case_ = {'file': rows_, 'nm': nm_, 'nx': nx_, 'ny': ny_, 'cmap': cmap_}
+        for ti_ in range(len(TABLE)):
+            bad = check_file(case_, ti_, isl, swap=bool((ti_ + isl) % 2))
+            if bad:
+                chk.violation('file:%s:%s:islands' % (bad['why'], 'swap_latlon' if (ti_ + isl) % 2 else 'lonlat'),
+                              {'case': case_, 'ti': ti_, 'mi': isl, 'swap': bool((ti_ + isl) % 2), 'mismatch': bad})
+                break
+        chk.nontrivial('islands|%d' % isl)
     import copy
     big = [c for c in cases if len(c['file']) >= 4]
     ctl = copy.deepcopy(big[10])
